@@ -103,6 +103,15 @@ def r10b(ck, prog):
             r = s.kids[1].strip()
             if r.k == "BinaryOperator" and r.d["op"] == "+" and r.kids[0].strip(casts=True).text() == tgt.text():
                 ok, addend = True, r.kids[1]
+            elif r.k == "BinaryOperator" and r.d["op"] == "+":
+                # const int old = gis[i]; ... gis[i] = old + inserted;
+                for o, other in ((r.kids[0], r.kids[1]), (r.kids[1], r.kids[0])):
+                    o0 = o.strip(casts=True)
+                    if o0.k == "DeclRefExpr" and o0.d.get("dk") == "Var":
+                        ds = [d for d, _ in local_defs(U, o0.d["did"])]
+                        if len(ds) == 1 and ds[0] is not None and ds[0].strip(casts=True).text() == tgt.text():
+                            ok, addend = True, other
+                            break
         if not ok:
             ck.violation("R10b", "R10b/update_gaps/store", where,
                          "update_gaps stores %s: a gap count may only grow by addition (columns are only inserted)" % s.text(), prog.config)
@@ -529,6 +538,8 @@ def r10h(ck, prog):
             # only reads that feed a position carried to the next slot (rel_pos += gis[i] + 1), not the bound of the scan itself
             asg = next((a for a in rd.ancestors() if (a.k == "CompoundAssignOperator" or (a.k == "BinaryOperator" and a.d["op"] == "=")) and
                         a.kids[0].strip().k == "DeclRefExpr" and rd.within(a.kids[1])), None)
+            if asg is None:
+                asg = next((a for a in rd.ancestors() if a.role == "declinit"), None)      # const int old_gaps = gis[idx];
             if asg is None:
                 continue
             n += 1
